@@ -5,4 +5,4 @@ import sys
 sys.path[:0] = ['/repo' + "/pulser-core", '/repo' + "/pulser-simulation", "/verif"]
 from symx.replay import replay
 sys.exit(replay(check='checks.c09', kernel='atomic', shape={'device': 'virt_maxseq', 'prefix': 'p2', 'ops': ['eom_off']},
-                assignment={'pd1/k': 983, 'pd2/k': 3, 'buf#1.start': 0, 'buf#1.end': 0, 'buf#2.start': 0, 'buf#2.end': 5, 'buf#5.start': 0, 'buf#5.end': 0, 'buf#6.start': 0, 'buf#6.end': 1}, label='atomic:eom_off#0'))
+                assignment={'pd1/k': 2, 'pd2/k': 983, 'buf#1.start': 0, 'buf#1.end': 0, 'buf#2.start': 0, 'buf#2.end': 1, 'buf#5.start': 0, 'buf#5.end': 8, 'buf#6.start': 0, 'buf#6.end': 9}, label='atomic:eom_off#0'))
